@@ -87,6 +87,10 @@ JUNK.append(2 ** 63 - 1)
 JUNK.append({"k": [1, 2], "first": [], "size": -1})
 JUNK.append({"first": 1, "size": "x", "last": None})
 
+# decimal.Decimal values (callers pass them for money): decoded in check()
+for _d in ("Infinity", "-Infinity", "NaN", "sNaN", "1e28", "1E+999999999", "3", "2.50", "-0"):
+    JUNK.append({"__decimal__": _d})
+
 junk = st.sampled_from(JUNK)
 
 
@@ -137,6 +141,10 @@ def decode_junk(v: Any) -> Any:
         if set(v) == {"__pow10__"}:
             n = v["__pow10__"]
             return 10 ** n if n >= 0 else -(10 ** -n)
+        if set(v) == {"__decimal__"}:
+            import decimal
+
+            return decimal.Decimal(v["__decimal__"])
         if set(v) == {"__deep_list__"}:  # [[[...[1]...]]]
             out: Any = [1]
             for _ in range(v["__deep_list__"]):
@@ -176,6 +184,13 @@ EXTRA_SEEDS += [
 
 
 # work that must not be proportional to the numeric value of a literal
+DECIMAL_CASES = [
+    {"template": "{% if (1..5) contains x %}y{% endif %}{% if x in (1..5) %}y{% endif %}{{ x | plus: 1 }}{{ x | round }}"
+                 "{{ x | abs }}{% for i in (1..x) limit: 1 %}{{ i }}{% endfor %}{{ nums[x] }}{{ x | at_most: 2 }}",
+     "data": {"x": {"__decimal__": d}, "nums": [1, 2]}}
+    for d in ("Infinity", "-Infinity", "NaN", "sNaN", "1e28", "1E+999999999", "3", "2.50")
+]
+
 EXTRA_SEEDS += [
     "{% if (1..1e18) contains 'a' %}y{% endif %}{% if 'a' in (1..1e18) %}y{% endif %}{% if (1..1e18) contains 2.5 %}y{% endif %}",
     "{% for i in (1..1000000000000) offset: 999999999990 limit: 3 %}{{ i }}{% endfor %}",
@@ -387,7 +402,7 @@ class C02(Prop):
                 yield {"kind": "text", "src": src[:k], "data": t.get("data") or {},
                        "templates": t.get("templates") or {}, "mode": "sync"}
 
-        for ti, t in enumerate(DEEP_CASES):
+        for ti, t in enumerate(DEEP_CASES + DECIMAL_CASES):
             for mode in ("sync", "async"):
                 yield {"kind": "text", "src": t["template"], "data": t["data"], "templates": t.get("templates") or {},
                        "mode": mode}
